@@ -20,11 +20,24 @@ pub struct Tracer<W: Write> {
     pub with_images: bool,
 }
 
+/// Where the call in progress is noted (history, step, operation): if the implementation never
+/// returns, the supervising check finds the hanging call here.
+pub static PROGRESS: std::sync::Mutex<Option<(String, String)>> = std::sync::Mutex::new(None);
+
+pub fn note_progress(step: u64, op: &str) {
+    if let Ok(g) = PROGRESS.lock() {
+        if let Some((path, id)) = g.as_ref() {
+            let _ = std::fs::write(path, format!("history {} step {} [{}]", id, step, op.chars().take(100).collect::<String>()));
+        }
+    }
+}
+
 impl<W: Write> Tracer<W> {
     pub fn exec(&mut self, live: &mut Live, op: &Op) -> String {
         self.step += 1;
         let now = T0 + self.step * 10_000_000;
         cfb::verif::verif_clock_set(Some(now));
+        note_progress(self.step, &op.encode());
         let res = live.exec(op);
         writeln!(self.out, "S {} {} => {}", now, op.encode(), res).unwrap();
         if self.with_images {
@@ -233,8 +246,11 @@ pub fn run(prof: Profile, seed: u64, count: usize, out: &str) -> (usize, Vec<Str
     for i in 0..count {
         let hs = master.next();
         let id = format!("{}-{}-{}", prof.name, seed, i);
+        *PROGRESS.lock().unwrap() = Some((format!("{}.progress", out), id.clone()));
         run_history(&mut tr, &id, hs, &prof, &mut failures);
     }
+    *PROGRESS.lock().unwrap() = None;
+    let _ = std::fs::remove_file(format!("{}.progress", out));
     tr.out.flush().unwrap();
     (count, failures)
 }
